@@ -30,6 +30,9 @@ type Parser struct {
 	lineComment *ast.Comment
 	// end of the token consumed last: where the element being parsed really ends
 	prevEnd Position
+	// end of the last token that was not a line break or an indent: where a
+	// multi-line entry (transaction, directive with sub-lines) really ends
+	contentEnd Position
 }
 
 func Parse(input string) (*ast.Journal, []ParseError) {
@@ -156,7 +159,7 @@ func (p *Parser) parseTransaction() *ast.Transaction {
 		}
 	}
 
-	tx.Range.End = toASTPosition(p.current.Pos)
+	tx.Range.End = toASTPosition(p.contentEnd)
 	return tx
 }
 
@@ -495,7 +498,7 @@ func (p *Parser) parseAccountDirective(startPos Position) ast.Directive {
 	}
 
 	dir.Subdirs = p.parseSubdirectives()
-	dir.Range.End = toASTPosition(p.current.Pos)
+	dir.Range.End = toASTPosition(p.contentEnd)
 
 	return dir
 }
@@ -557,7 +560,7 @@ func (p *Parser) parseCommodityDirective(startPos Position) ast.Directive {
 		dir.Note = note
 	}
 
-	dir.Range.End = toASTPosition(p.current.Pos)
+	dir.Range.End = toASTPosition(p.contentEnd)
 	return dir
 }
 
@@ -589,7 +592,7 @@ func (p *Parser) parseIncludeDirective(startPos Position) ast.Directive {
 		Path:  pathStr,
 		Range: ast.Range{Start: toASTPosition(startPos)},
 	}
-	inc.Range.End = toASTPosition(p.current.Pos)
+	inc.Range.End = toASTPosition(p.contentEnd)
 	p.skipToNextLine()
 	return inc
 }
@@ -625,7 +628,7 @@ func (p *Parser) parsePriceDirective(startPos Position) ast.Directive {
 	}
 	dir.Price = *price
 
-	dir.Range.End = toASTPosition(p.current.Pos)
+	dir.Range.End = toASTPosition(p.contentEnd)
 	p.skipToNextLine()
 	return dir
 }
@@ -717,7 +720,7 @@ func (p *Parser) parseDefaultCommodityDirective(startPos Position) ast.Directive
 		}
 	}
 
-	dir.Range.End = toASTPosition(p.current.Pos)
+	dir.Range.End = toASTPosition(p.contentEnd)
 	p.skipToNextLine()
 	return dir
 }
@@ -742,7 +745,7 @@ func (p *Parser) parseYearDirective(startPos Position) ast.Directive {
 		Range: ast.Range{Start: toASTPosition(startPos)},
 	}
 	p.advance()
-	dir.Range.End = toASTPosition(p.current.Pos)
+	dir.Range.End = toASTPosition(p.contentEnd)
 	p.skipToNextLine()
 	return dir
 }
@@ -834,6 +837,9 @@ func isValidTagName(name string) bool {
 
 func (p *Parser) advance() {
 	p.prevEnd = p.current.End
+	if p.current.Type != TokenNewline && p.current.Type != TokenIndent {
+		p.contentEnd = p.current.End
+	}
 	p.current = p.lexer.Next()
 }
 
